@@ -177,7 +177,7 @@ func (e *Env) Eval(x Expr) Value {
 			if n.Table == "" {
 				switch n.Name {
 				case "current_schema":
-					return e.ex.db.DefaultSchema
+					return e.ex.sch("")
 				case "current_timestamp":
 					return e.ex.sess.stmtTime()
 				}
@@ -1068,7 +1068,7 @@ func (e *Env) evalFunc(f *FuncExpr) Value {
 		h := sha256.Sum256(data)
 		return h[:]
 	case "nextval":
-		return big.NewInt(ex.db.nextval(seqName(text(a[0]))))
+		return big.NewInt(ex.db.nextval(ex.seqKey(text(a[0]))))
 	case "setval":
 		if strict() {
 			return nil
@@ -1077,7 +1077,7 @@ func (e *Env) evalFunc(f *FuncExpr) Value {
 		if len(a) > 2 {
 			isCalled, _ = truth(a[2])
 		}
-		ex.db.setval(seqName(text(a[0])), asNum(a[1]).Int64(), isCalled)
+		ex.db.setval(ex.seqKey(text(a[0])), asNum(a[1]).Int64(), isCalled)
 		return asNum(a[1])
 	case "transaction_date":
 		return ex.sess.txDate()
@@ -1136,7 +1136,7 @@ func (e *Env) evalFunc(f *FuncExpr) Value {
 	case "version":
 		return "PostgreSQL 16 (pgsem model)"
 	case "current_schema":
-		return ex.db.DefaultSchema
+		return ex.sch("")
 	}
 	// user-defined (PL/pgSQL) function
 	if fn := ex.db.funcs[f.Name]; fn != nil {
